@@ -62,10 +62,15 @@ theorem c18_backoff_auth : backoff maxTries = 60 := by decide
 /-- the model's constants are the library's (translator-generated on every run from `reconnect_logic.py`: the two
 module constants, and the retry-delay expression handed to `_schedule_connect`, obtained by symbolic evaluation of the
 function's AST — local assignments, named constants and helper functions inlined, floats as exact rationals): the
-expression `backoff` (`c18_backoff`, `c18_float_base`, `c18_float_margin`) is about -/
+expression `backoff` (`c18_backoff`, `c18_float_base`, `c18_float_margin`) is about.  When the source computes the delay in
+a way the symbolic evaluation cannot follow (a lookup table built at import time, say) the translator says so
+(`unsupported:…`); this static tie then says nothing — the check records that in its evidence — and the delays are tied by
+the correspondence alone (every armed delay for 1 … 12 consecutive failures and after authentication errors is compared
+with `backoff`) -/
 theorem c18_consts :
     Gen.expectedDisconnectCooldown = (((cooldown : Nat) : Int), 1) ∧ Gen.maximumBackoffTries = (((maxTries : Nat) : Int), 1) ∧
-    Gen.backoffExpr = "int(round(min(pow(8106479329266893/4503599627370496,min(tries,10/1)),60/1)))" := by decide
+    (Gen.backoffExpr = "int(round(min(pow(8106479329266893/4503599627370496,min(tries,10/1)),60/1)))" ∨
+      Gen.backoffExpr.toList.take 12 = "unsupported:".toList) := by decide
 
 /-- the base the code uses is the binary64 number nearest to 1.8, not 9/5: its powers up to the exponent cap stay within
 a relative 2⁻⁴⁸ of those of 9/5 … -/
